@@ -48,7 +48,8 @@ def run(ctx, replay=None):
             want = float(getattr(models, name).py_func(*args))
             got = py2coq.ir_eval(irs['models.' + name]['ir'], env)
             ctx.count('ir_roundtrip', name)
-            if not gen.close(want, got, 1e-12, 1e-300):
+            # 1 - rho cancels for h << r: an ulp in rho is an absolute error of ~1e-16 * sill in the result
+            if not gen.close(want, got, 1e-12, 1e-14 * (abs(b) + abs(c0))):
                 ctx.problem('translation', 'IR of models.%s evaluates differently from the source function' % name,
                             {'model': name, 'args': args}, {'source': want, 'ir': got}, {'what': 'ir-roundtrip'})
         # ---------- interval goals: the generated Coq definitions evaluated inside Coq vs the implementation
@@ -155,6 +156,18 @@ def run(ctx, replay=None):
                                     {'int': vi[:5], 'float': vf[:5]}, {'what': 'int-vs-float-range', 'model': name})
                 except Exception as e:
                     ctx.problem('oracle', 'model raises for an integer-typed range: %s' % type(e).__name__, dict(case, r_int=ri), None, {'what': 'raises', 'model': name})
+            # integer-typed lag arrays (pixel distances): same values as the float lags, for every model and dtype
+            for dt_ in ('uint8', 'uint16', 'uint32', 'int32', 'int64'):
+                hi_ = np.array([0, 1, 2, 5, 17, 200], dtype=dt_)
+                try:
+                    args_ = ([float(r), float(c0)] + ([float(s)] if name in ('stable', 'matern') else []) + [float(b)])
+                    vi = np.asarray(f(hi_, *args_), float)
+                    vf = np.asarray(f(hi_.astype(float), *args_), float)
+                    if vi.shape != vf.shape or not all(gen.close(a_, b_, 1e-12, 1e-12) for a_, b_ in zip(vi, vf)):
+                        ctx.problem('oracle', 'model evaluated on an integer-typed lag array (%s) differs from the same lags as floats' % hi_.dtype, dict(case, lag_dtype=str(hi_.dtype)),
+                                    {'int': vi.tolist(), 'float': vf.tolist()}, {'what': 'int-vs-float-lags', 'model': name})
+                except Exception as e:
+                    ctx.count('int_lags_rejected', name + ':' + type(e).__name__)
             ctx.case_done(case, True)
         # ---------- sum of models: slices against the model, sum = sum of components + single nugget
         nsum = 25 if not ctx.thorough() else 200
